@@ -111,6 +111,40 @@ func (e *Engine) interop(fr *frame, st *State, c *ast.CallExpr, fn *types.Func, 
 	}
 	txconst := func() { k(st, []Val{e.uf(short, resTy)}) }
 	switch {
+	case strings.Contains(full, "interop/neogointernal.Opcode1NoReturn"):
+		op := ""
+		if tv := info.Types[c.Args[0]]; tv.Value != nil {
+			op = constant.StringVal(tv.Value)
+		}
+		id, isIdent := c.Args[1].(*ast.Ident)
+		if op != "REVERSEITEMS" || !isIdent {
+			panic("no model for neogointernal.Opcode1NoReturn(" + op + ")")
+		}
+		// in-place reversal of a byte buffer whose length is a known constant
+		obj := info.Uses[id]
+		cur := st.vars[obj]
+		if cur.Ty.K != spec.KNB || cur.KnownLen == 0 {
+			panic("REVERSEITEMS on a buffer of unknown length")
+		}
+		if len(cur.Cells) == cur.KnownLen-1 {
+			r := Val{KnownLen: cur.KnownLen}
+			for i := len(cur.Cells) - 1; i >= 0; i-- {
+				r.Cells = append(r.Cells, cur.Cells[i])
+			}
+			r.TV = nbv(cat(r.Cells...)).TV
+			st.vars[obj] = r
+			k(st, nil)
+			return true
+		}
+		n := cur.KnownLen - 1
+		var parts []*sx.T
+		for i := n - 1; i >= 0; i-- {
+			parts = append(parts, sx.App("str.at", cur.bytes(), sx.Int(int64(i))))
+		}
+		r := e.name(st, nbv(cat(parts...)))
+		r.KnownLen = cur.KnownLen
+		st.vars[obj] = r
+		k(st, nil)
 	// ---- effects --------------------------------------------------------------
 	case has(full, "interop/contract.Call"):
 		withArgs(func(st *State, vs []Val) {
